@@ -84,6 +84,30 @@ func zzC16Sketch(kind int, exact bool) {
 	}
 }
 
+// only the zero bucket holds weight (both stores empty, new or cleared)
+func zzC16ZeroOnly(exact bool) {
+	ek := []int{0, 2, 4, 9, 10}[zzvChoose("emptyKind", 5)]
+	s := zzSketch("s", zzStub(1), ek, ek)
+	zzvAssume(zzInvSketch(s))
+	z0 := s.zeroCount
+	var e *DDSketchWithExactSummaryStatistics
+	if exact {
+		e = &DDSketchWithExactSummaryStatistics{DDSketch: s, summaryStatistics: zzStats("s", z0, false)}
+	}
+	w := store.ZZFactor(zzvChoose("w", 5))
+	zzvCover("pre-state")
+	if exact {
+		c0 := e.GetCount()
+		zzvAssert("reweight-ok", e.Reweight(w) == nil)
+		zzvAssert("exact-count-scaled", e.GetCount() == w*c0)
+	} else {
+		zzvAssert("reweight-ok", s.Reweight(w) == nil)
+	}
+	zzvAssert("zero-bucket-scaled", s.zeroCount == w*z0)
+	zzvAssert("count-scaled", s.GetCount() == w*z0)
+}
+func ZZ_C16_sketch_zero_bucket_only()       { zzC16ZeroOnly(false) }
+func ZZ_C16_sketch_exact_zero_bucket_only() { zzC16ZeroOnly(true) }
 func ZZ_C16_sketch_dense()        { zzC16Sketch(1, false) }
 func ZZ_C16_sketch_sparse()       { zzC16Sketch(3, false) }
 func ZZ_C16_sketch_pag_buffer()   { zzC16Sketch(5, false) }
